@@ -42,9 +42,10 @@ type C04Opt struct {
 }
 
 type SrcEdit struct {
-	Kind string `json:"kind"` // replace | insert | delete
+	Kind string `json:"kind"` // replace | insert | delete | insert-str
 	Pos  int    `json:"pos"`
 	Byte int    `json:"byte"`
+	Str  string `json:"str,omitempty"` // insert-str: a multi-byte token (comment openers, operators, quotes)
 }
 
 type C04Scenario struct {
@@ -106,6 +107,8 @@ func (c04Engine) Decode(raw []byte) (interface{}, error) {
 
 var editBytes = []byte("(){}[]?:.,#\"'\\| &=!<>*/%+-~^@$`_;0123456789aeExXnot in\n\t\xff\x80\xc3\xe6\x00")
 
+var editStrs = []string{"/*", "*/", "//", "/**/", "/*/", "#", "..", "?.", "?:", "**", "not in", " in ", "\\\"", "'", "0x", "1e", "1e+", "{", "}}", "(((", "|", "&&", "nil", "\n//", "\xf0\x9f", "\u00e9"}
+
 func (c04Engine) Gen(seed uint64, idx int, tier string) interface{} {
 	r := NewRNG(seed)
 	sc := &C04Scenario{Seed: seed, Index: idx}
@@ -146,7 +149,11 @@ func (c04Engine) Gen(seed uint64, idx int, tier string) interface{} {
 	for e := 0; e < ne; e++ {
 		var es []SrcEdit
 		for j := 0; j <= fr.Intn(3); j++ {
-			es = append(es, SrcEdit{Kind: []string{"replace", "insert", "delete"}[fr.Intn(3)], Pos: fr.Intn(len(sc.Source) + 1), Byte: int(editBytes[fr.Intn(len(editBytes))])})
+			e := SrcEdit{Kind: []string{"replace", "insert", "delete", "insert-str"}[fr.Intn(4)], Pos: fr.Intn(len(sc.Source) + 1), Byte: int(editBytes[fr.Intn(len(editBytes))])}
+			if e.Kind == "insert-str" {
+				e.Str = editStrs[fr.Intn(len(editStrs))]
+			}
+			es = append(es, e)
 		}
 		sc.Edits = append(sc.Edits, es)
 	}
@@ -636,7 +643,7 @@ func (c04Engine) Run(sci interface{}, ctx *RunCtx) *Finding {
 			ctx.Count("programs_run_after_faulty_compile", 1)
 		}
 		// also the simplest sources under this option set (result directives on nil, literals)
-		extra := []string{"nil", "1", "\"s\"", "[]", "{}", "Xs", "Any", "nil ?: 1", "#"}
+		extra := []string{"nil", "1", "\"s\"", "[]", "{}", "Xs", "Any", "nil ?: 1", "#", "S in Pm", "\"k1\" in Pm", "A not in Pm", "Pm", "Lvl", "EmbV + Lvl", "a /*", "1 + 2 /* note", "/*/", "A // c"}
 		if o.OperatorOp != "" {
 			// operands without a static type, dynamic operands and mismatched operands
 			// around the overloaded operator
@@ -712,6 +719,8 @@ func applyEdits(s string, es []SrcEdit) string {
 			if pos < len(b) {
 				b = append(b[:pos:pos], b[pos+1:]...)
 			}
+		case "insert-str":
+			b = append(b[:pos:pos], append([]byte(e.Str), b[pos:]...)...)
 		}
 	}
 	return string(b)
